@@ -37,7 +37,7 @@ def s_c06(rng, tier, st):
            gen_ops.gen_api_walk(rng, N(tier, 6, 60), 25, invalid_rate=0.25, stats=st) + gen_ops.gen_invalid_midstream(rng, N(tier, 4, 40), stats=st)
 def s_c07(rng, tier, st): return gen_ops.gen_parallel(rng, N(tier, 8, 100), stats=st)
 def s_c10(rng, tier, st): return gen_ops.gen_keylen(rng, stats=st, junk_patterns=(0xA5, 0x00) if tier == "quick" else (0xA5, 0x00, 0xFF, 0x3C))
-def s_c14(rng, tier, st): return gen_ops.gen_invalid_midstream(rng, N(tier, 6, 60), stats=st) + gen_ops.gen_api_walk(rng, N(tier, 30, 400), 30, invalid_rate=0.35, stats=st) + gen_ops.gen_tweak(rng, N(tier, 2, 20), stats=st)
+def s_c14(rng, tier, st): return gen_ops.gen_invalid_midstream(rng, N(tier, 6, 60), stats=st) + gen_ops.gen_api_walk(rng, N(tier, 30, 400), 30, invalid_rate=0.35, fail_rate=0.12, stats=st) + gen_ops.gen_tweak(rng, N(tier, 2, 20), stats=st)
 def s_c15(rng, tier, st): return gen_ops.gen_api_walk(rng, N(tier, 30, 400), 40, invalid_rate=0.1, fail_rate=0.15, stats=st)
 def s_c16(rng, tier, st): return gen_ops.gen_api_walk(rng, N(tier, 30, 400), 25, invalid_rate=0.1, fail_rate=0.5, stats=st)
 def s_c17(rng, tier, st): return gen_ops.gen_api_walk(rng, N(tier, 24, 300), 20, invalid_rate=0.05, stats=st)
@@ -123,7 +123,7 @@ def oracle_buffers(run, tier, rng):
     in-place bulk calls, all overlap offsets for single-block calls; output compared with the model"""
     cfg = DEFAULT_CFG
     d, cexe = run.lib(cfg, sanitize=ASAN)
-    model = os.path.join(vlib.LEAN, ".lake", "build", "bin", "skinny_model")
+    model = getattr(run, "model_exe", None) or os.path.join(vlib.LEAN, ".lake", "build", "bin", "skinny_model")
     st = gen_ops.Stats(); n = 0; placements = 0
     aligns = [0, 1, 3, 7, 13] if tier == "quick" else list(range(32))
     for be in cfg.backends():
@@ -462,7 +462,7 @@ def oracle_arduino(run, tier, rng):
     p = vlib.run(["sh", "-c", "g++ -O1 -I%s -I%s/utility %s %s/*.cpp -o %s" % (adir, adir, os.path.join(vlib.VERIF, "harness", "ardrv.cpp"), adir, ard)])
     if p.returncode != 0:
         return {"ok": False, "broken": "Arduino port does not build on the host: " + (p.stdout + p.stderr)[-800:]}
-    model = os.path.join(vlib.LEAN, ".lake", "build", "bin", "skinny_model")
+    model = getattr(run, "model_exe", None) or os.path.join(vlib.LEAN, ".lake", "build", "bin", "skinny_model")
     n = 0; cmp = 0
     for name, body in gen_arduino(Rng(rng.next()), N(tier, 25, 400)):
         lines = _hdr(run, cfg, "vec256") + body
@@ -523,7 +523,7 @@ def oracle_tools(run, tier, rng):
         return {"ok": False, "what": "example tool %s: %s (argv %s)" % (f.get("tool"), f.get("what"), " ".join(map(str, f.get("argv", [])))[:200]),
                 "witness": {"lines": ["# " + _json.dumps(f)[:2000]]}, "cases": res["cases"]}
     # the same comparison with the Lean model (the functions the C20 theorems are about) as the reference
-    model = os.path.join(vlib.LEAN, ".lake", "build", "bin", "skinny_model")
+    model = getattr(run, "model_exe", None) or os.path.join(vlib.LEAN, ".lake", "build", "bin", "skinny_model")
     res2 = {"cases": 0}
     if os.path.exists(model):
         wd2 = vlib.scratch_dir("skv-tools-m-")
